@@ -110,6 +110,8 @@ static std::string traj_config(TrajCase const &c)
        "\n distance {\n group1 { atomNumbers 1 }\n group2 { atomNumbers 2 }\n }\n}\n";
   // a variable evaluated every second step only: its column is there at every line (with the value it last took)
   s += "colvar {\n name sl\n width 100.0\n timeStepFactor 2\n outputVelocity on\n distance {\n group1 { atomNumbers 1 }\n group2 { atomNumbers 2 }\n }\n}\n";
+  // a unit-vector variable with its velocity
+  s += "colvar {\n name du\n outputVelocity on\n distanceDir {\n group1 { atomNumbers 1 }\n group2 { atomNumbers 2 }\n }\n}\n";
   s += "colvar {\n name dv\n outputAppliedForce on\n distanceVec {\n group1 { atomNumbers 1 }\n group2 { atomNumbers 2 }\n }\n}\n";
   s += "harmonic {\n name h\n colvars d\n centers 1.0\n forceConstant 2.0\n targetCenters 3.0\n targetNumSteps 4\n outputEnergy " +
        onoff(c.flags & 16) + "\n outputCenters " + onoff(c.flags & 32) + "\n outputAccumulatedWork " + onoff(c.flags & 64) + "\n}\n";
@@ -201,6 +203,8 @@ static void check_traj_case(TrajCase const &c, Result &r, std::string const &pre
     q.col["dv"] = nums_of(dv->x_reported);
     q.col["sl"] = nums_of(px->cv("sl")->x_reported);
     q.col["v_sl"] = nums_of(px->cv("sl")->v_reported);
+    q.col["du"] = nums_of(px->cv("du")->x_reported);
+    q.col["v_du"] = nums_of(px->cv("du")->v_reported);
     q.col["fa_dv"] = nums_of(dv->applied_force());
     q.col["E_h"] = {h->bias_energy};
     q.col["E_hv"] = {hv->bias_energy};
@@ -247,7 +251,7 @@ static void check_traj_case(TrajCase const &c, Result &r, std::string const &pre
       ln.step = atol(t[p++].c_str());
       bool ok = true;
       for (auto &lab : labels) {
-        bool vec = (lab == "dv" || lab == "fa_dv");
+        bool vec = (lab == "dv" || lab == "fa_dv" || lab == "du" || lab == "v_du");
         std::vector<double> v;
         if (vec) {
           // "( a , b , c )"
@@ -286,7 +290,7 @@ static void check_traj_case(TrajCase const &c, Result &r, std::string const &pre
   for (size_t i = 0; i < lines.size(); i++) {
     if (lines[i].step != expect[i]->step) { r.violation("C19:traj:wrong-step-number", c.json()); return; }
     // the announced columns must be exactly the outputs requested at that step
-    std::set<std::string> want = {"dv", "fa_dv", "E_hv", "E_w", "W_w", "sl", "v_sl"};
+    std::set<std::string> want = {"dv", "fa_dv", "E_hv", "E_w", "W_w", "sl", "v_sl", "du", "v_du"};
     int const fl = c.flags_at(lines[i].step);
     if (fl & 1) want.insert("d");
     if (fl & 2) want.insert("v_d");
@@ -342,6 +346,24 @@ static void check_traj_case(TrajCase const &c, Result &r, std::string const &pre
                     c.json().substr(0, c.json().size() - 1) + ",\"step\":" + std::to_string(s) + ",\"written\":" + num(a) +
                         ",\"expected\":" + num(vref) + "}");
     }
+  }
+  // ... of the unit-vector variable: a vector tangent to the unit sphere, the difference of the two directions (chord) or the
+  // geodesic between them laid out in the tangent plane at either end (dt = 1)
+  for (size_t i = 0; i < lines.size(); i++) {
+    long s = lines[i].step;
+    if (s == 0 || expect[i]->run > 0 || !lines[i].col.count("v_du") || lines[i].col["v_du"].size() != 3) continue;
+    auto dir = [](double v) { double n = dist_of(v); return cvm::rvector(v / n, 0.5 * v / n, 0.25 / n); };
+    cvm::rvector const un = dir(VALS[c.word[s]]), uo = dir(VALS[c.word[s - 1]]);
+    cvm::rvector const got(lines[i].col["v_du"][0], lines[i].col["v_du"][1], lines[i].col["v_du"][2]);
+    double const ct = std::min(1.0, un * uo), th = std::acos(ct), st = std::sqrt(std::max(0.0, 1.0 - ct * ct));
+    double const fac = st > 1e-12 ? th / st : 1.0;
+    cvm::rvector const cand[3] = {un - uo, fac * (un * ct - uo), fac * (un - uo * ct)};
+    bool okv = false;
+    for (auto const &cv3 : cand) if ((got - cv3).norm() <= 1e-9 * std::max(1.0, cv3.norm())) okv = true;
+    if (!okv)
+      r.violation("C19:traj:velocity-not-finite-difference:unit-vector-variable",
+                  c.json().substr(0, c.json().size() - 1) + ",\"step\":" + std::to_string(s) + ",\"written\":\"" + num(got.x) + " " + num(got.y) + " " + num(got.z) +
+                      "\",\"difference_of_the_two_directions\":\"" + num(cand[0].x) + " " + num(cand[0].y) + " " + num(cand[0].z) + "\"}");
   }
   // ... and of the variable evaluated every second step: the difference of its last two values over the two steps between them
   for (size_t i = 0; i < lines.size(); i++) {
